@@ -582,3 +582,181 @@ def prove_in_vocabulary(eng, label, goal, vocabulary, kind="annotation", note=""
     note = (note + " " if note else "") + "[context restricted to: " + ", ".join(sorted(names)) + "]" + (f" [variant {eng.variant}]" if getattr(eng, "variant", "") else "")
     eng.obligs.append(Oblig(f"{eng.prop}/{label}", hyps, goal, kind, note))
     eng.pc.append(goal)
+
+
+# ---------------------------------------------------------------------------------------------------------------
+# lists of Path / Branch objects on one tree (symbolic length), and lists of (such a list, int list) pairs:
+# the values that Tree.get_branches hands through the traversal
+def pointwise(eng, sort, name, body_of, i=None):
+    """a fresh array A with  forall i. A[i] == body_of(i)  (pattern A[i]); no lambda term is created"""
+    a = z3.Const(fresh_name(name), sort)
+    i = z3.Int(fresh_name("pw")) if i is None else i
+    eng.assume(z3.ForAll([i], z3.Select(a, i) == body_of(i), patterns=[z3.Select(a, i)]))
+    return a
+
+
+class BranchSeq(PList):
+    """list (symbolic length n) of objects of ONE class (Tree.Path / Tree.Branch) that share all fields (`fixed`: attach, names,
+    source) except their index array: entry k has idx = cols[0][k] [0 .. cols[1][k]).  The objects are values here: identity is not
+    observed, the index array of a stored object is never written (the handed-out arrays are frozen)."""
+
+    def init_seq(self, idx=None, lens=None, n=0, cls=None, fixed=None, name="branches"):
+        self.items, self.kinds, self.tup, self.name = None, ["int*", "int"], False, name
+        self.cols = [idx if idx is not None else z3.Const(fresh_name(name + "_idx"), AAII), lens if lens is not None else z3.Const(fresh_name(name + "_len"), AII)]
+        self.n, self.cls_, self.fixed = n, cls, (dict(fixed) if fixed is not None else None)
+        return self
+
+    @staticmethod
+    def make(idx=None, lens=None, n=0, cls=None, fixed=None, name="branches"):
+        return BranchSeq().init_seq(idx, lens, n, cls, fixed, name)
+
+    def get(self, i):
+        iz = to_z3(i, "int")
+        if self.cls_ is None:
+            raise Unsupported("element of a list of branches whose class is not known yet")
+        a = SArr(z3.Select(self.cols[0], iz), z3.Select(self.cols[1], iz), "int", name="idx")
+        a.frozen = True
+        return Obj(self.cls_, dict(self.fixed, idx=a))
+
+    def promote(self, *a, **k):
+        raise Unsupported("promotion of a list of branches")
+
+    def __pyvc_getitem__(self, eng, idx):
+        if isinstance(idx, slice):
+            raise Unsupported("slice of a list of branches of symbolic length")
+        return self.get(models.norm_index(eng, idx, self.n, "list index"))
+
+    def adopt(self, cls, fixed):
+        if self.cls_ is None:
+            self.cls_, self.fixed = cls, dict(fixed)
+            return
+        if cls is not self.cls_ or set(fixed) != set(self.fixed) or any(not _same_value(fixed[k], self.fixed[k]) for k in fixed):
+            raise Unsupported(f"list of branches: objects of another class / on another tree ({cls} vs {self.cls_}; {sorted(fixed)} vs {sorted(self.fixed)}; " + ", ".join(k for k in fixed if k in self.fixed and not _same_value(fixed[k], self.fixed[k])) + ")")
+
+
+def _same_value(a, b):
+    return a is b or (type(a) is type(b) and not isinstance(a, (Obj, PList, SArr, NArr, Sym)) and a == b)
+
+
+def branch_seq_empty(eng, lst):
+    """loop-contract `types` hint: a still empty concrete list that will receive Branch objects becomes an (empty) BranchSeq in place"""
+    if lst.items:
+        raise Unsupported("branch_seq_empty: the list is not empty")
+    lst.__class__ = BranchSeq
+    lst.init_seq(name=getattr(lst, "name", "branches") or "branches")
+    eng.assumptions.add("list-model: a list of Path/Branch objects on one tree is stored as the list of their index arrays (the objects are values: identity is never observed, a stored index array is never written)")
+
+
+def _bs_obj_fields(x):
+    if not (isinstance(x, Obj) and isinstance(x.fields.get("idx"), SArr) and x.fields["idx"].kind == "int"):
+        raise Unsupported("append of something that is not a Path/Branch object with an int index array")
+    return x.cls, {k: v for k, v in x.fields.items() if k != "idx"}, x.fields["idx"]
+
+
+def _bs_append(eng, recv, args, kwargs):
+    (x,) = args
+    models.check_frame(eng, recv)
+    cls, fixed, idx = _bs_obj_fields(x)
+    recv.adopt(cls, fixed)
+    n = zint(recv.n)
+    recv.cols = [z3.Store(recv.cols[0], n, idx.arr), z3.Store(recv.cols[1], n, idx.nz())]
+    recv.n = z3.simplify(n + 1)
+    idx.frozen = True  # the object's array is now also reachable through the list: values only
+    return None
+
+
+def _bs_reverse(eng, recv):
+    models.check_frame(eng, recv)
+    eng.assumptions.add("stdlib-model:list.reverse() reverses in place (entry i becomes entry n-1-i)")
+    n = zint(recv.n)
+    c0, c1 = recv.cols
+    recv.cols = [pointwise(eng, AAII, recv.name + "_ridx", lambda i: z3.Select(c0, n - 1 - i)), pointwise(eng, AII, recv.name + "_rlen", lambda i: z3.Select(c1, n - 1 - i))]
+    return None
+
+
+def _bs_extend(eng, recv, args, kwargs):
+    (src,) = args
+    models.check_frame(eng, recv)
+    if isinstance(src, Iter):
+        src.consumed, src = True, src.seq
+    if not isinstance(src, BranchSeq):
+        raise Unsupported("extend of a list of branches by something else")
+    eng.assumptions.add("stdlib-model:list.extend(l2) appends the entries of l2 in order")
+    if src.cls_ is not None:
+        recv.adopt(src.cls_, src.fixed)
+    n = zint(recv.n)
+    c0, c1, s0, s1 = recv.cols + src.cols
+    recv.cols = [pointwise(eng, AAII, recv.name + "_xidx", lambda i: z3.If(i < n, z3.Select(c0, i), z3.Select(s0, i - n))),
+                 pointwise(eng, AII, recv.name + "_xlen", lambda i: z3.If(i < n, z3.Select(c1, i), z3.Select(s1, i - n)))]
+    recv.n = z3.simplify(n + zint(src.n))
+    return None
+
+
+models.EXTRA_METHODS[(BranchSeq, "append")] = _bs_append
+models.EXTRA_METHODS[(BranchSeq, "extend")] = _bs_extend
+
+_m_reverse0 = _m_reverse
+
+
+def _m_reverse(eng, recv, args, kwargs):  # noqa: F811
+    if isinstance(recv, BranchSeq):
+        return _bs_reverse(eng, recv)
+    if _mine(eng) and isinstance(recv, PList) and recv.items is None and not isinstance(recv, (LList, LLList)) and recv.kinds == ["int"]:
+        models.check_frame(eng, recv)
+        eng.assumptions.add("stdlib-model:list.reverse() reverses in place (entry i becomes entry n-1-i)")
+        n, c = zint(recv.n), recv.cols[0]
+        recv.cols = [pointwise(eng, AII, recv.name + "_rev", lambda i: z3.Select(c, n - 1 - i))]
+        return None
+    return _m_reverse0(eng, recv, args, kwargs)
+
+
+models.EXTRA_METHODS[(PList, "reverse")] = _m_reverse
+
+
+class PairList(PList):
+    """list (symbolic length n) of (BranchSeq, int list) pairs: entry k = (branches with index arrays cols[0][k][i] of lengths
+    cols[1][k][i], i < cols[2][k];  ints cols[3][k][0 .. cols[4][k]) ).  `get` hands out MUTABLE objects (the leave callback of
+    get_branches consumes its children's results); aliasing between two reads of one entry is not modelled, so an entry may be read
+    only once per path (`view` is the read of specification code)."""
+
+    def __init__(self, eng, n, cls, fixed, name="pre"):
+        super().__init__()
+        mk = lambda suffix, sort: z3.Const(fresh_name(f"{name}_{suffix}"), sort)
+        self.items, self.kinds, self.tup, self.n, self.name = None, ["int**", "int*", "int", "int*", "int"], True, n, name
+        self.cols = [mk("bidx", AAAII), mk("blen", AAII), mk("bn", AII), mk("ch", AAII), mk("cn", AII)]
+        self.cls_, self.fixed, self.reads = cls, dict(fixed), 0
+        i, j, k, k2 = z3.Int(fresh_name("i")), z3.Int(fresh_name("j")), z3.Int(fresh_name("k")), z3.Int(fresh_name("m"))
+        bn = self.cols[2]
+        eng.assume(z3.ForAll([i], z3.And(z3.Select(bn, i) >= 0, z3.Select(self.cols[4], i) >= 0)))
+        eng.assume(z3.ForAll([i, j], z3.Select(z3.Select(self.cols[1], i), j) >= 0))
+        # ghost: loff(k) = (number of branches of entry 0) + 1 + ... + (number of branches of entry k-1) + 1, and the entry lseg(p) whose
+        # block [loff(k), loff(k+1)) holds position p  (what a consumer that emits len(branches_k) + 1 items per entry produces)
+        tag = fresh_name("blk")
+        self.loff, self.lseg = z3.Function(tag + "_off", z3.IntSort(), z3.IntSort()), z3.Function(tag + "_seg", z3.IntSort(), z3.IntSort())
+        loff, lseg, K = self.loff, self.lseg, zint(n)
+        eng.assume(loff(0) == 0)
+        eng.assume(z3.ForAll([k], z3.Implies(z3.And(0 <= k, k < K), loff(k + 1) == loff(k) + z3.Select(bn, k) + 1), patterns=[loff(k + 1), z3.Select(bn, k)]))
+        eng.assume(z3.ForAll([k, k2], z3.Implies(z3.And(0 <= k, k <= k2, k2 <= K), loff(k) <= loff(k2)), patterns=[z3.MultiPattern(loff(k), loff(k2))]))
+        eng.assume(z3.ForAll([i], z3.Implies(z3.And(0 <= i, i < loff(K)), z3.And(0 <= lseg(i), lseg(i) < K, loff(lseg(i)) <= i, i < loff(lseg(i) + 1))), patterns=[lseg(i)]))
+        eng.assumptions.add("ghost definitions per list of child results: loff(k) = sum over the first k entries of (number of branches + 1), monotone; lseg(p) = the entry whose block holds position p")
+
+    def view(self, k):
+        kz = to_z3(k, "int")
+        b = BranchSeq.make(z3.Select(self.cols[0], kz), z3.Select(self.cols[1], kz), z3.Select(self.cols[2], kz), self.cls_, self.fixed, self.name + "_branches")
+        c = PList()
+        c.items, c.cols, c.kinds, c.tup, c.n, c.name = None, [z3.Select(self.cols[3], kz)], ["int"], False, z3.Select(self.cols[4], kz), self.name + "_chain"
+        return (b, c)
+
+    def get(self, k):
+        self.reads += 1
+        if self.reads > 1:
+            raise Unsupported("second read of an entry of the child results (aliasing between two reads is not modelled)")
+        return self.view(k)
+
+    def promote(self, *a, **k):
+        raise Unsupported("promotion of a list of pairs")
+
+    def __pyvc_getitem__(self, eng, idx):
+        if isinstance(idx, slice):
+            raise Unsupported("slice of the child results")
+        return self.get(models.norm_index(eng, idx, self.n, "list index"))
